@@ -22,6 +22,7 @@ U = dict(pressure_mode='absolute', pressure_unit='bar', loading_basis='molar', l
 POOL = {
     'H1': ('Henry', {'K': 2.0}), 'H2': ('Henry', {'K': 0.4}),
     'L1': ('Langmuir', {'K': 3.0, 'n_m': 4.0}), 'L2': ('Langmuir', {'K': 0.6, 'n_m': 4.0}), 'L3': ('Langmuir', {'K': 1.5, 'n_m': 2.0}),
+    'L4': ('Langmuir', {'K': 0.9, 'n_m': 4.03}),       # capacity within 1 % of L1/L2 but not equal: no closed form applies
     'DS': ('DSLangmuir', {'n_m1': 2.0, 'K1': 6.0, 'n_m2': 3.0, 'K2': 0.3}),
     'Q': ('Quadratic', {'n_m': 2.5, 'Ka': 1.2, 'Kb': 0.6}),
     'B': ('BET', {'n_m': 3.0, 'C': 20.0, 'N': 0.01}),
@@ -183,6 +184,15 @@ def work(arg):
             out['nt'] += 1
             if core.relerr(o.value, base) > 1e-7:
                 report('point-fraction-helper', f'iast_point_fraction({keys}, y={y}, P={tot_p}) = {o.value} but iast_point gives {base}', base, o.value)
+        # the adsorbing components diluted in an inert balance gas: fractions that do not sum to one, same partial pressures
+        y2 = [0.4 * v for v in y]
+        o = core.call(pgi.iast_point_fraction, isos, y2, tot_p / 0.4, warningoff=True, timeout=60)
+        out['ev'] += 1
+        if o.ok:
+            out['nt'] += 1
+            if core.relerr(o.value, base) > 1e-7:
+                report('point-fraction-helper', f'iast_point_fraction({keys}, y={y2} (rest inert), P={tot_p / 0.4}) = {o.value} but iast_point at the partial pressures y_i P gives {base}',
+                       base, o.value, {'fractions': 'sum below one'})
         if do_reverse:
             xs = [float(v) for v in x]
             xs[-1] = 1.0 - sum(xs[:-1])
